@@ -12,3 +12,6 @@ Ltac kernel_cases :=
   end.
 Ltac kernel_eq := intros; first [reflexivity | (cbv beta delta -[Qplus Qminus Qmult Qdiv Qopp Qltb Qleb Qeqb pymin pymax Z.lor] ; kernel_cases; cbn; first [reflexivity | exfalso; lra])].
 
+
+(* the assertions of a translated function never fire (generated lemma t_<name>__asserts_hold) *)
+Ltac kernel_assert f := intros; cbv beta delta -[Qplus Qminus Qmult Qdiv Qopp Qltb Qleb Qeqb pymin pymax Z.lor]; kernel_cases; cbn; first [reflexivity | exfalso; lra].
